@@ -96,6 +96,23 @@ def check_text(ctx, labels, case_kind="gen"):
             n3 = dns.name.from_text(t2, origin=dns.name.root)
             if n3.labels != tuple(labels):
                 ctx.violation("text-omit-final-dot-mismatch", f"labels={labels!r} text={t2!r} back={n3.labels!r}", case)
+        # styled text: NameStyle(origin=, relativize=, omit_final_dot=) -- relativized to one of its own suffixes or left absolute
+        if labels and labels[-1] == b"" and len(labels) > 1:
+            rng = ctx.rng
+            suf = tuple(labels[rng.randrange(1, len(labels)):])
+            for o in (suf, (b"unrelated", b"zz", b"")):
+                for rel in (True, False):
+                    for omit in (True, False):
+                        ctx.count("mon.styled_text")
+                        ts = n.to_styled_text(dns.name.NameStyle(origin=mk(o), relativize=rel, omit_final_dot=omit))
+                        under = R.is_subdomain(tuple(labels), o) and len(o) > 0
+                        if rel and under:
+                            back = dns.name.from_text(ts, origin=mk(o))  # a relative spelling: the origin is appended
+                        else:
+                            back = dns.name.from_text(ts, origin=dns.name.root)  # absolute, with or without its final dot
+                        if back.labels != tuple(labels):
+                            ctx.violation("styled-text-mismatch:" + ("relativized" if rel and under else "absolute") + (":omit-final-dot" if omit else ""),
+                                          f"labels={labels!r} origin={o!r} text={ts!r} back={back.labels!r}", case)
         # reference spellings through the library parser
         for style in ("minimal", "ddd", "bschar"):
             rt = R.to_text(tuple(labels), style)
